@@ -209,6 +209,27 @@ class Contract(object):
                 return None
         return None
 
+    GHOST_LOG = ('emits', 'host_calls', 'setter_values', 'callee_outcomes', 'called', 'calls', 'call_result')
+
+    def post_reads_ghost_log(self):
+        if getattr(self, '_ghost', None) is None:
+            seen = set()
+
+            def uses(node):
+                for n in ast.walk(node):
+                    if isinstance(n, ast.Name):
+                        if n.id in self.GHOST_LOG:
+                            return True
+                        if n.id not in seen:
+                            seen.add(n.id)
+                            for m in self.world.spec_modules:
+                                d = m.defs.get(n.id)
+                                if d is not None and d[0] == 'func' and uses(d[1]):
+                                    return True
+                return False
+            self._ghost = uses(self.fns['post'].node)
+        return self._ghost
+
     OPAQUE_EXC = ['XLError', 'ValueError', 'TypeError', 'ZeroDivisionError', 'OverflowError', 'IndexError', 'KeyError',
                   'AttributeError', 'AnyException']
 
@@ -306,6 +327,10 @@ class Contract(object):
         if 'spec' in self.fns:
             return it.call(self.fns['spec'], vals)
         if 'post' in self.fns:
+            if self.post_reads_ghost_log():
+                # the postcondition describes the callee's own events (emits, call-outs, setter values): evaluated here it would read the
+                # CALLER's log, find nothing and rule the call out altogether.  Callers need an abstraction (`for_callers`) for such a callee.
+                raise OutOfReach('the contract of callee %s speaks about its own event log: it cannot stand in for the call' % self.name)
             opts = ['ret'] + list(self.raises)
             c = ctx.choose([True] * len(opts))
             if c == 0:
